@@ -105,6 +105,10 @@ func (ms *memstore) Add(bucket string, filename string, contents []byte, meta *s
 	}
 
 	b := ms.getBucket(bucket)
+	if b == nil {
+		// the bucket was deleted concurrently
+		return os.ErrNotExist
+	}
 	b.mu.Lock()
 	defer b.mu.Unlock()
 	stored := *meta
@@ -126,6 +130,10 @@ func (ms *memstore) UpdateMeta(bucket string, filename string, meta *storage.Obj
 	meta.Metageneration = metagen
 
 	b := ms.getBucket(bucket)
+	if b == nil {
+		// the bucket was deleted concurrently
+		return os.ErrNotExist
+	}
 	b.mu.Lock()
 	defer b.mu.Unlock()
 	stored := *meta
